@@ -1,7 +1,7 @@
 import CalicoVerif.Util.Proto
 import CalicoVerif.Model.C12
 /-! Driver for C12.  Op: `chk p=<proto> t=<tiers> f=<profiles>` → `alp=<v> bpf=<v> ipt=<v>`
-(tiers `|`-separated `<D|P>:<policy>/<policy>`; policy/profile = `,`-separated rules
+(tiers `|`-separated `<D|P>:<policy>/<policy>`; policy (`~` prefix = staged) / profile = `,`-separated rules
 `<a|d|p|n|l>.<proto|x>.<notproto|x>`, `_` = no rules, `-` = none). -/
 open CalicoVerif CalicoVerif.C11 CalicoVerif.C12 CalicoVerif.Proto
 
@@ -24,11 +24,15 @@ def parseRule (s : String) : Option Rule :=
 def parseRules (s : String) : Option Policy :=
   if s == "_" then some ⟨[]⟩ else ((s.splitOn ",").mapM parseRule).map Policy.mk
 
+def parsePolS (s : String) : Option PolS :=
+  if s.startsWith "~" then (parseRules (s.drop 1).toString).map (fun p => ⟨true, p.rules⟩)
+  else (parseRules s).map (fun p => ⟨false, p.rules⟩)
+
 def parseTier (s : String) : Option Tier :=
   match s.splitOn ":" with
   | [e, pols] => do
-    let ps ← (pols.splitOn "/").mapM parseRules
-    some { endAction := if e == "P" then .pass else .deny, endRuleID := 1, policies := ps }
+    let ps ← (pols.splitOn "/").mapM parsePolS
+    some (enforcedTier { endAction := if e == "P" then .pass else .deny, policies := ps })
   | _ => none
 
 def showV : Verdict → String
